@@ -5,26 +5,55 @@ open SafeNet.Model.SelfEnc SafeNet.Model.ClientRead
 
 variable {B DM : Type}
 
+/-- the address check of the split loop lets this pad through -/
+def passes (chk : Bool) (padKey : Nat → Nat) (rkey : Nat) (p : Pad) : Bool := !chk || padKey p.owner == rkey
+
+/-- a pad the split loop considers at all: validly signed and let through by the address check -/
+def eligible (chk : Bool) (padKey : Nat → Nat) (rkey : Nat) (p : Pad) : Bool := p.valid && passes chk padKey rkey p
+
+/-- the body of the `Scratchpad` arm as a function of eligibility -/
+theorem splitStep_pad (chk : Bool) (padKey : Nat → Nat) (rkey : Nat) (st : Option Kind × Option Pad) (r : Rec B) (p : Pad)
+    (hh : headerOf r = some .scratchpad) (hk : st.1.getD .scratchpad = .scratchpad) (hp : padOf r = some p) :
+    splitStep chk padKey rkey st r =
+      (some .scratchpad,
+        if eligible chk padKey rkey p then
+          match st.2 with
+          | some old => if old.ctr ≥ p.ctr then st.2 else some p
+          | none => some p
+        else st.2) := by
+  obtain ⟨k0, b0⟩ := st
+  obtain ⟨o, c, v, ver⟩ := p
+  simp only at hk
+  unfold splitStep
+  simp only [hh, hk, ne_eq, not_true_eq_false, ↓reduceIte, hp, eligible, passes]
+  by_cases hq : padKey o = rkey <;> cases chk <;> cases v <;> cases b0 <;> simp [hq] <;> split <;> simp
+
 /-- Invariant of the `handle_split_record_error` loop after the records `done` have been processed. -/
-structure Inv (st : Option Kind × Option Pad) (done : List (Rec B)) : Prop where
+structure Inv (chk : Bool) (padKey : Nat → Nat) (rkey : Nat) (st : Option Kind × Option Pad) (done : List (Rec B)) : Prop where
   noKind : st.1 = none → st.2 = none ∧ ∀ r ∈ done, headerOf r = none
   otherKind : ∀ k, st.1 = some k → k ≠ .scratchpad → st.2 = none
   best : st.1 = some .scratchpad → ∀ r ∈ done, headerOf r = some .scratchpad → ∀ q, padOf r = some q →
-    q.valid = true → ∃ p, st.2 = some p ∧ q.ctr ≤ p.ctr
-  fromDone : ∀ p, st.2 = some p → p.valid = true ∧ ∃ r ∈ done, padOf r = some p
+    eligible chk padKey rkey q = true → ∃ p, st.2 = some p ∧ q.ctr ≤ p.ctr
+  fromDone : ∀ p, st.2 = some p → eligible chk padKey rkey p = true ∧ ∃ r ∈ done, headerOf r = some .scratchpad ∧ padOf r = some p
+  /-- the first parsable header dictates the kind -/
+  kindFrom : ∀ k, st.1 = some k → ∃ r ∈ done, headerOf r = some k
 
-theorem inv_init : Inv (B := B) (none, none) [] := by
+theorem inv_init (chk : Bool) (padKey : Nat → Nat) (rkey : Nat) : Inv (B := B) chk padKey rkey (none, none) [] := by
   constructor <;> simp
 
-theorem inv_step (st : Option Kind × Option Pad) (done : List (Rec B)) (r : Rec B) (h : Inv st done) :
-    Inv (splitStep st r) (r :: done) := by
+theorem inv_step (chk : Bool) (padKey : Nat → Nat) (rkey : Nat) (st : Option Kind × Option Pad) (done : List (Rec B))
+    (r : Rec B) (h : Inv chk padKey rkey st done) : Inv chk padKey rkey (splitStep chk padKey rkey st r) (r :: done) := by
   obtain ⟨k0, b0⟩ := st
-  obtain ⟨h1, h2, h3, h4⟩ := h
-  simp only at h1 h2 h3 h4
-  unfold splitStep
+  obtain ⟨h1, h2, h3, h4, h5⟩ := h
+  simp only at h1 h2 h3 h4 h5
+  -- facts about `done` carry over to `r :: done`
+  have lift4 : ∀ p, b0 = some p → eligible chk padKey rkey p = true ∧
+      ∃ x ∈ r :: done, headerOf x = some .scratchpad ∧ padOf x = some p := by
+    intro p hp; obtain ⟨a, x, hx, hxp⟩ := h4 p hp; exact ⟨a, x, List.mem_cons_of_mem _ hx, hxp⟩
   cases hh : headerOf r with
   | none =>
-    simp only
+    have hs : splitStep chk padKey rkey (k0, b0) r = (k0, b0) := by unfold splitStep; simp only [hh]
+    rw [hs]
     constructor
     · intro hk; have := h1 hk; refine ⟨this.1, ?_⟩
       intro x hx; cases hx with
@@ -35,157 +64,116 @@ theorem inv_step (st : Option Kind × Option Pad) (done : List (Rec B)) (r : Rec
       cases hx with
       | head => rw [hh] at hxh; cases hxh
       | tail _ hx => exact h3 hk x hx hxh q hq hv
-    · intro p hp; obtain ⟨a, x, hx, hxp⟩ := h4 p hp; exact ⟨a, x, List.mem_cons_of_mem _ hx, hxp⟩
+    · exact lift4
+    · intro k hk; obtain ⟨x, hx, hxk⟩ := h5 k hk; exact ⟨x, List.mem_cons_of_mem _ hx, hxk⟩
   | some k =>
-    simp only
-    cases k0 with
-    | some k' =>
-      -- the kind is already fixed
-      simp only [Option.getD_some]
-      by_cases hkk : k' = k
-      · subst hkk
-        simp only [ne_eq, not_true_eq_false, ↓reduceIte]
-        cases k' with
-        | chunk =>
-          simp only
-          have hb : b0 = none := h2 _ rfl (by decide)
-          subst hb
-          constructor <;> simp
-        | other =>
-          simp only
-          have hb : b0 = none := h2 _ rfl (by decide)
-          subst hb
-          constructor <;> simp
-        | scratchpad =>
-          simp only
-          have h3' := h3 rfl
-          cases hp : padOf r with
+    -- the kind after this record
+    by_cases hpad : k0.getD k = k ∧ k = .scratchpad ∧ ∃ p, padOf r = some p
+    · obtain ⟨hkk, hks, p, hp⟩ := hpad
+      subst hks
+      rw [splitStep_pad chk padKey rkey (k0, b0) r p hh hkk hp]
+      have hk0 : k0 = none ∨ k0 = some .scratchpad := by
+        cases k0 with
+        | none => exact .inl rfl
+        | some k' => simp only [Option.getD_some] at hkk; exact .inr (by rw [hkk])
+      -- every earlier record under a scratchpad header is bounded by the old best
+      have hold : ∀ x ∈ done, headerOf x = some .scratchpad → ∀ q, padOf x = some q → eligible chk padKey rkey q = true →
+          ∃ p', b0 = some p' ∧ q.ctr ≤ p'.ctr := by
+        intro x hx hxh q hq hv
+        cases hk0 with
+        | inl hn => rw [(h1 hn).2 x hx] at hxh; cases hxh
+        | inr hs => exact h3 hs x hx hxh q hq hv
+      simp only
+      constructor
+      · simp
+      · intro k hk hne; simp at hk; exact absurd hk.symm hne
+      · intro _ x hx hxh q hq hv
+        cases hx with
+        | head =>
+          rw [hp] at hq; cases hq
+          simp only [hv, ↓reduceIte]
+          cases b0 with
+          | none => exact ⟨p, rfl, Nat.le_refl _⟩
+          | some old =>
+            simp only
+            by_cases hc : old.ctr ≥ p.ctr
+            · simp only [hc, ↓reduceIte]; exact ⟨old, rfl, hc⟩
+            · simp only [hc, ↓reduceIte]; exact ⟨p, rfl, Nat.le_refl _⟩
+        | tail _ hx =>
+          obtain ⟨p', hp', hle⟩ := hold x hx hxh q hq hv
+          subst hp'
+          by_cases he : eligible chk padKey rkey p = true
+          · simp only [he, ↓reduceIte]
+            by_cases hc : p'.ctr ≥ p.ctr
+            · simp only [hc, ↓reduceIte]; exact ⟨p', rfl, hle⟩
+            · simp only [hc, ↓reduceIte]; exact ⟨p, rfl, by omega⟩
+          · simp only [he, Bool.false_eq_true, ↓reduceIte]; exact ⟨p', rfl, hle⟩
+      · intro p' hp'
+        by_cases he : eligible chk padKey rkey p = true
+        · simp only [he, ↓reduceIte] at hp'
+          cases b0 with
           | none =>
+            simp only [Option.some.injEq] at hp'; subst hp'
+            exact ⟨he, r, List.mem_cons_self, hh, hp⟩
+          | some old =>
+            simp only at hp'
+            by_cases hc : old.ctr ≥ p.ctr
+            · simp only [hc, ↓reduceIte] at hp'; exact lift4 p' hp'
+            · simp only [hc, ↓reduceIte, Option.some.injEq] at hp'; subst hp'
+              exact ⟨he, r, List.mem_cons_self, hh, hp⟩
+        · simp only [he, Bool.false_eq_true, ↓reduceIte] at hp'; exact lift4 p' hp'
+      · intro k hk; simp at hk; subst hk; exact ⟨r, List.mem_cons_self, hh⟩
+    · -- the record does not touch the best pad: only the kind may get fixed
+      have hs : splitStep chk padKey rkey (k0, b0) r = (some (k0.getD k), b0) := by
+        unfold splitStep
+        simp only [hh]
+        by_cases hkk : k0.getD k = k
+        · simp only [hkk, ne_eq, not_true_eq_false, ↓reduceIte]
+          cases k with
+          | chunk => rfl
+          | other => rfl
+          | scratchpad =>
             simp only
-            constructor
-            · simp
-            · intro k hk hne; simp at hk; exact absurd hk.symm hne
-            · intro _ x hx hxh q hq hv
-              cases hx with
-              | head => rw [hp] at hq; cases hq
-              | tail _ hx => exact h3' x hx hxh q hq hv
-            · intro p hp'; obtain ⟨a, x, hx, hxp⟩ := h4 p hp'; exact ⟨a, x, List.mem_cons_of_mem _ hx, hxp⟩
-          | some p =>
-            simp only
-            by_cases hv : p.valid = true
-            · simp only [hv, Bool.not_true, Bool.false_eq_true, ↓reduceIte]
-              cases b0 with
-              | none =>
-                simp only
-                constructor
-                · simp
-                · intro k hk hne; simp at hk; exact absurd hk.symm hne
-                · intro _ x hx hxh q hq hvq
-                  cases hx with
-                  | head => rw [hp] at hq; cases hq; exact ⟨p, rfl, Nat.le_refl _⟩
-                  | tail _ hx =>
-                    obtain ⟨p', hp', _⟩ := h3' x hx hxh q hq hvq
-                    cases hp'
-                · intro p' hp'; simp at hp'; subst hp'
-                  exact ⟨hv, r, List.mem_cons_self, hp⟩
-              | some old =>
-                simp only
-                by_cases hc : old.ctr ≥ p.ctr
-                · simp only [hc, ↓reduceIte]
-                  constructor
-                  · simp
-                  · intro k hk hne; simp at hk; exact absurd hk.symm hne
-                  · intro _ x hx hxh q hq hvq
-                    cases hx with
-                    | head => rw [hp] at hq; cases hq; exact ⟨old, rfl, hc⟩
-                    | tail _ hx => exact h3' x hx hxh q hq hvq
-                  · intro p' hp'; obtain ⟨a, x, hx, hxp⟩ := h4 p' hp'; exact ⟨a, x, List.mem_cons_of_mem _ hx, hxp⟩
-                · simp only [hc, ↓reduceIte]
-                  constructor
-                  · simp
-                  · intro k hk hne; simp at hk; exact absurd hk.symm hne
-                  · intro _ x hx hxh q hq hvq
-                    cases hx with
-                    | head => rw [hp] at hq; cases hq; exact ⟨p, rfl, Nat.le_refl _⟩
-                    | tail _ hx =>
-                      obtain ⟨p', hp', hle⟩ := h3' x hx hxh q hq hvq
-                      cases hp'
-                      exact ⟨p, rfl, by omega⟩
-                  · intro p' hp'; simp at hp'; subst hp'
-                    exact ⟨hv, r, List.mem_cons_self, hp⟩
-            · have hv' : p.valid = false := by cases h : p.valid <;> simp_all
-              simp only [hv', Bool.not_false, ↓reduceIte]
-              constructor
-              · simp
-              · intro k hk hne; simp at hk; exact absurd hk.symm hne
-              · intro _ x hx hxh q hq hvq
-                cases hx with
-                | head => rw [hp] at hq; cases hq; rw [hv'] at hvq; cases hvq
-                | tail _ hx => exact h3' x hx hxh q hq hvq
-              · intro p' hp'; obtain ⟨a, x, hx, hxp⟩ := h4 p' hp'; exact ⟨a, x, List.mem_cons_of_mem _ hx, hxp⟩
-      · -- a record of another kind than the dictated one is skipped
-        simp only [ne_eq, hkk, not_false_eq_true, ↓reduceIte]
-        constructor
-        · simp
-        · intro k'' hk hne; simp at hk; subst hk; exact h2 _ rfl hne
-        · intro hk x hx hxh q hq hvq
-          simp at hk; subst hk
-          cases hx with
-          | head => rw [hh] at hxh; cases hxh; exact absurd rfl hkk
-          | tail _ hx => exact h3 rfl x hx hxh q hq hvq
-        · intro p' hp'; obtain ⟨a, x, hx, hxp⟩ := h4 p' hp'; exact ⟨a, x, List.mem_cons_of_mem _ hx, hxp⟩
-    | none =>
-      -- this record dictates the kind
-      have ⟨hb, hnone⟩ := h1 rfl
-      subst hb
-      simp only [Option.getD_none, ne_eq, not_true_eq_false, ↓reduceIte]
-      cases k with
-      | chunk => simp only; constructor <;> simp
-      | other => simp only; constructor <;> simp
-      | scratchpad =>
-        simp only
-        cases hp : padOf r with
-        | none =>
-          simp only
-          constructor
-          · simp
-          · simp
-          · intro _ x hx hxh q hq hv
-            cases hx with
-            | head => rw [hp] at hq; cases hq
-            | tail _ hx => rw [hnone x hx] at hxh; cases hxh
-          · simp
-        | some p =>
-          simp only
-          by_cases hv : p.valid = true
-          · simp only [hv, Bool.not_true, Bool.false_eq_true, ↓reduceIte]
-            constructor
-            · simp
-            · intro k hk hne; simp at hk; exact absurd hk.symm hne
-            · intro _ x hx hxh q hq hvq
-              cases hx with
-              | head => rw [hp] at hq; cases hq; exact ⟨p, rfl, Nat.le_refl _⟩
-              | tail _ hx => rw [hnone x hx] at hxh; cases hxh
-            · intro p' hp'; simp at hp'; subst hp'
-              exact ⟨hv, r, List.mem_cons_self, hp⟩
-          · have hv' : p.valid = false := by cases h : p.valid <;> simp_all
-            simp only [hv', Bool.not_false, ↓reduceIte]
-            constructor
-            · simp
-            · simp
-            · intro _ x hx hxh q hq hvq
-              cases hx with
-              | head => rw [hp] at hq; cases hq; rw [hv'] at hvq; cases hvq
-              | tail _ hx => rw [hnone x hx] at hxh; cases hxh
-            · simp
+            cases hp : padOf r with
+            | none => rfl
+            | some p => exact absurd ⟨hkk, rfl, p, hp⟩ hpad
+        · simp only [ne_eq, hkk, not_false_eq_true, ↓reduceIte]
+      rw [hs]
+      constructor
+      · simp
+      · intro k' hk' hne
+        simp only [Option.some.injEq] at hk'
+        cases k0 with
+        | none => exact (h1 rfl).1
+        | some k'' => simp only [Option.getD_some] at hk'; subst hk'; exact h2 _ rfl hne
+      · intro hk x hx hxh q hq hv
+        simp only [Option.some.injEq] at hk
+        cases hx with
+        | head =>
+          exfalso
+          rw [hh] at hxh; cases hxh
+          exact hpad ⟨hk, rfl, q, hq⟩
+        | tail _ hx =>
+          cases k0 with
+          | none => rw [(h1 rfl).2 x hx] at hxh; cases hxh
+          | some k'' => simp only [Option.getD_some] at hk; subst hk; exact h3 rfl x hx hxh q hq hv
+      · exact lift4
+      · intro k' hk'
+        simp only [Option.some.injEq] at hk'
+        cases k0 with
+        | none => simp only [Option.getD_none] at hk'; subst hk'; exact ⟨r, List.mem_cons_self, hh⟩
+        | some k'' =>
+          simp only [Option.getD_some] at hk'; subst hk'
+          obtain ⟨x, hx, hxk⟩ := h5 _ rfl; exact ⟨x, List.mem_cons_of_mem _ hx, hxk⟩
 
-theorem inv_fold (m : List (Rec B)) : ∀ (st : Option Kind × Option Pad) (done : List (Rec B)), Inv st done →
-    ∃ done', Inv (m.foldl splitStep st) done' ∧ ∀ r, r ∈ done' ↔ (r ∈ m ∨ r ∈ done) := by
+theorem inv_fold (chk : Bool) (padKey : Nat → Nat) (rkey : Nat) (m : List (Rec B)) :
+    ∀ (st : Option Kind × Option Pad) (done : List (Rec B)), Inv chk padKey rkey st done →
+    ∃ done', Inv chk padKey rkey (m.foldl (splitStep chk padKey rkey) st) done' ∧ ∀ r, r ∈ done' ↔ (r ∈ m ∨ r ∈ done) := by
   induction m with
   | nil => intro st done h; exact ⟨done, h, by simp⟩
   | cons r rest ih =>
     intro st done h
-    obtain ⟨done', hinv, hmem⟩ := ih (splitStep st r) (r :: done) (inv_step st done r h)
+    obtain ⟨done', hinv, hmem⟩ := ih (splitStep chk padKey rkey st r) (r :: done) (inv_step chk padKey rkey st done r h)
     refine ⟨done', hinv, ?_⟩
     intro x; rw [hmem x]; simp only [List.mem_cons]
     constructor
@@ -198,33 +186,38 @@ theorem inv_fold (m : List (Rec B)) : ∀ (st : Option Kind × Option Pad) (done
       · exact .inl h
       · exact .inr (.inr h)
 
-/-- What `handle_split_record_error` returns for scratchpads: a valid pad out of the map whose counter bounds that of
-every valid pad that came under a `Scratchpad` header. -/
-theorem handleSplit_spec (m : List (Rec B)) (r : Rec B) (h : handleSplit m = some r) :
-    ∃ p, r = ⟨some .scratchpad, .pad p⟩ ∧ p.valid = true ∧ (∃ x ∈ m, padOf x = some p) ∧
-      ∀ x ∈ m, headerOf x = some .scratchpad → ∀ q, padOf x = some q → q.valid = true → q.ctr ≤ p.ctr := by
+/-- What `handle_split_record_error` returns for scratchpads: an eligible (validly signed, and — with the address check —
+living at the requested key) pad that came under a `Scratchpad` header, whose counter bounds that of every eligible pad
+that came under a `Scratchpad` header. -/
+theorem handleSplit_spec (chk : Bool) (padKey : Nat → Nat) (rkey : Nat) (m : List (Rec B)) (r : Rec B)
+    (h : handleSplit chk padKey rkey m = some r) :
+    ∃ p, r = ⟨some .scratchpad, .pad p⟩ ∧ p.valid = true ∧ passes chk padKey rkey p = true ∧
+      (∃ x ∈ m, headerOf x = some .scratchpad ∧ padOf x = some p) ∧
+      ∀ x ∈ m, headerOf x = some .scratchpad → ∀ q, padOf x = some q → q.valid = true → passes chk padKey rkey q = true →
+        q.ctr ≤ p.ctr := by
   unfold handleSplit at h
   split at h
-  · obtain ⟨done, hinv, hmem⟩ := inv_fold m (none, none) [] inv_init
-    cases hres : (m.foldl splitStep (none, none)).2 with
+  · obtain ⟨done, hinv, hmem⟩ := inv_fold chk padKey rkey m (none, none) [] (inv_init chk padKey rkey)
+    cases hres : (m.foldl (splitStep chk padKey rkey) (none, none)).2 with
     | none => rw [hres] at h; cases h
     | some p =>
       rw [hres] at h
       simp only [Option.some.injEq] at h
       refine ⟨p, h.symm, ?_⟩
-      obtain ⟨hv, x, hx, hxp⟩ := hinv.fromDone p hres
+      obtain ⟨hv, x, hx, hxh, hxp⟩ := hinv.fromDone p hres
+      simp only [eligible, Bool.and_eq_true] at hv
       have hxm : x ∈ m := by have := (hmem x).1 hx; simpa using this
-      refine ⟨hv, ⟨x, hxm, hxp⟩, ?_⟩
-      intro y hy hyh q hq hvq
+      refine ⟨hv.1, hv.2, ⟨x, hxm, hxh, hxp⟩, ?_⟩
+      intro y hy hyh q hq hvq hpq
       -- the dictated kind must be Scratchpad, otherwise no pad would have been selected
-      have hk : (m.foldl splitStep (none, none)).1 = some .scratchpad := by
-        cases hk' : (m.foldl splitStep (none, none)).1 with
+      have hk : (m.foldl (splitStep chk padKey rkey) (none, none)).1 = some .scratchpad := by
+        cases hk' : (m.foldl (splitStep chk padKey rkey) (none, none)).1 with
         | none => have := (hinv.noKind hk').1; rw [hres] at this; cases this
         | some k =>
           by_cases hks : k = .scratchpad
           · rw [hks]
           · have := hinv.otherKind k hk' hks; rw [hres] at this; cases this
-      obtain ⟨p', hp', hle⟩ := hinv.best hk y ((hmem y).2 (.inl hy)) hyh q hq hvq
+      obtain ⟨p', hp', hle⟩ := hinv.best hk y ((hmem y).2 (.inl hy)) hyh q hq (by simp [eligible, hvq, hpq])
       rw [hres] at hp'; cases hp'; exact hle
   · cases h
 
